@@ -1137,6 +1137,10 @@ func (c *contextWriter) RequiredGas(input []byte) uint64 {
 }
 
 func (c *contextWriter) Run(ctx context.Context, input []byte) ([]byte, error) {
+	if c.ctx == nil {
+		// only EVM.Call attaches the caller; without it the write cannot be attributed
+		return nil, errors.New("context write is only available through a direct call")
+	}
 	if input == nil || len(input) < 128 {
 		return nil, nil
 	}
